@@ -10,19 +10,23 @@ namespace MT
 section
 variable {α : Type} [Add α] [Mul α] [MTExtra α]
 
+/-- number of draws made before row `i` of one layer: rows `0..i-1` make `K, K-1, …` draws
+(`for i: for j ≥ i`, initialization.hpp:57-78) -/
+def rowStart (K : Nat) : Nat → Nat
+  | 0 => 0
+  | i + 1 => rowStart K i + (K - i)
+
 /-- position (within one layer) of the draw shared by entries `(i,j)` and `(j,i)`:
-`for i: for j ≥ i: T(i,j)=T(j,i)=draw` (initialization.hpp:57-78) -/
+`for i: for j ≥ i: T(i,j)=T(j,i)=draw` -/
 def triPos (K i j : Nat) : Nat :=
-  let lo := min i j
-  let hi := max i j
-  lo * K - lo * (lo - 1) / 2 + (hi - lo)
+  rowStart K (min i j) + (max i j - min i j)
 
 /-- `init_symmetric_tensor_random` -/
 def initAffRandom (assort : Bool) (K L : Nat) (d : Nat → α) : Tens α × Nat :=
   if assort then
     (Tens.ofFn K 1 L fun i _ a => d (a * K + i), L * K)
   else
-    (Tens.ofFn K K L fun i j a => d (a * (K * (K + 1) / 2) + triPos K i j), L * (K * (K + 1) / 2))
+    (Tens.ofFn K K L fun i j a => d (a * rowStart K K + triPos K i j), L * rowStart K K)
 
 /-- `init_symmetric_tensor_from_initial`: the cached user tensor plus `EPS_NOISE * draw` per
 entry, `for alpha: for k: (for q:)` (initialization.hpp:112-145) -/
